@@ -779,6 +779,7 @@ theorem parseVersion_sim (fuel : Nat) (ctx : Ctx) : Sim e (parseVersion fuel ctx
   | some token =>
     dsimp only
     refine Sim.bind (Sim.attempt (getIdentifier_sim hm ctx)) (fun ident => ?_)
+    refine Sim.getState_bind (fun s1 => ?_)
     refine Sim.ite ?_ (resetTail_sim _ _ (by decide))
     refine Sim.bind (Sim.attempt ((allSim hsp hm fuel).type _ _ _)) (fun r => ?_)
     refine Sim.bind (Sim.setTokenpos 0) (fun _ => ?_)
